@@ -425,6 +425,15 @@ FORWARD_ITER = ('core::slice::iter', '<core::slice::iter::Iter as core::iter::tr
                 '<&[T] as core::iter::traits::collect::IntoIterator>::into_iter', 'alloc::vec::Vec::iter')
 
 
+import re as _re
+# the same adapters named through a type parameter of a private generic helper that was inlined (`fn write_all<I: IntoIterator>(xs: I)`):
+# which impl runs is decided by the argument - the callers of iter_source compare the source they get with the Vec/slice they
+# expect, and every IntoIterator impl of Vec<T>/&Vec<T>/&[T] yields the elements front to back
+_GENERIC_FWD = _re.compile(r'^(<[A-Z]\w* as core::iter::traits::collect::IntoIterator>::into_iter|'
+                           r'<<[A-Z]\w* as core::iter::traits::collect::IntoIterator>::IntoIter as core::iter::traits::iterator::Iterator>::enumerate|'
+                           r'<core::iter::adapters::enumerate::Enumerate<<[A-Z]\w* as core::iter::traits::collect::IntoIterator>::IntoIter> as core::iter::traits::collect::IntoIterator>::into_iter)$')
+
+
 def iter_source(t):
     return iter_source_ex(t)[:2]
 
@@ -437,7 +446,7 @@ def iter_source_ex(t):
     while True:
         x = strip_mut(x)
         if x[0] == 'call' and isinstance(x[1], str) and len(x[2]) == 1 and \
-                (x[1] in FORWARD_ITER or (x[1].startswith('<&[') and x[1].endswith('] as core::iter::traits::collect::IntoIterator>::into_iter'))):
+                (x[1] in FORWARD_ITER or _GENERIC_FWD.match(x[1]) or (x[1].startswith('<&[') and x[1].endswith('] as core::iter::traits::collect::IntoIterator>::into_iter'))):
             if 'enumerate' in x[1]:
                 enum = True
             x = x[2][0]
